@@ -1,13 +1,15 @@
 ---- MODULE MC_Host ----
 EXTENDS J2O_Host, Json, J2O_HostFacts
-MCSlots == {"s1", "s2", "s3"}
+MCSlots == {"s1", "s2", "s3", "s4"}
+\* s4 is inherited from s1 (a subclass method defined by its base class) and patched by a third plugin
+MCInherit == ("s4" :> "s1")
 MCMissing == {"s3"}
 \* s1 is patched by both plugins (like the 28 duplicate keys of the real registry),
 \* s3 does not exist before patching (delete-on-restore)
 \* FactWithinDup (extracted from the working tree): some plugin patches one key twice in its
 \* own spec list, which makes the restore order INSIDE a frame observable
-MCLeafSpecs == IF FactWithinDup THEN << <<"s3", "s1", "s3">>, <<"s1", "s2">> >>
-               ELSE << <<"s3", "s1">>, <<"s1", "s2">> >>
+MCLeafSpecs == IF FactWithinDup THEN << <<"s3", "s1", "s3">>, <<"s1", "s2">>, <<"s4">> >>
+               ELSE << <<"s3", "s1">>, <<"s1", "s2">>, <<"s4">> >>
 MCFnSlots == <<"f1", "f2">>
 \* simulation: print the history whenever a behaviour is back at quiescence
 EmitAtIdle == (pc.s = "idle" /\ nconv >= 1) => PrintT(ToJson(log))
